@@ -9,10 +9,13 @@ bounded by a simulated-step budget (device events) plus a CPU-time cap.
 """
 import hashlib
 import os
+import re
 import shutil
+import struct
 
 from battery import INVOCATIONS, ro_argv
 from framework import Check, Outcome, main
+import simcore
 from simcore import Plan, Rng, derive_seed, log_hash, run_sim, tool
 from states import make_state
 import minifs
@@ -64,6 +67,69 @@ def corrupt_file(rng, path, n, header_len, be_fields=None):
     return what
 
 
+UNDO_HDR = [("num_keys", 8, 8), ("super_offset", 16, 8), ("key_offset", 24, 8), ("block_size", 32, 4), ("fs_block_size", 36, 4),
+            ("state", 44, 4), ("f_compat", 48, 4), ("f_incompat", 52, 4), ("f_rocompat", 56, 4), ("fs_offset", 64, 8)]
+
+
+def undo_struct_faults(rng, path, n):
+    """Seeded faults addressed by the structure of an undo file (lib/ext2fs/undo_io.c): header fields and the
+    fsblk / crc / size fields of keys set to boundary values, most of the time with the key-block and header
+    checksums re-sealed so that the value gets past the integrity checks of a run without -f."""
+    from refext4 import crc32c
+    data = bytearray(open(path, "rb").read())
+    what = []
+    for _ in range(n):
+        if len(data) < 512 or data[:8] != b"E2UNDO02":
+            break
+        num_keys, _so, key_off, bs, _fbs = struct.unpack_from("<QQQII", data, 8)
+        seal = rng.chance(0.7)
+        keyblocks = []
+        if 1024 <= bs <= (1 << 20) and num_keys:
+            kpb = bs // 16 - 1
+            lblk, i = key_off, 0
+            while i < num_keys and len(keyblocks) < 64:
+                o = lblk * bs
+                if o + bs > len(data) or struct.unpack_from("<I", data, o)[0] != 0xCADECADE:
+                    break
+                nk = min(kpb, num_keys - i)
+                keyblocks.append((o, nk))
+                lblk += 1
+                for j in range(nk):
+                    lblk += (struct.unpack_from("<I", data, o + 16 + 16 * j + 12)[0] + bs - 1) // bs
+                i += kpb
+        if keyblocks and rng.chance(0.6):
+            o, nk = rng.choice(keyblocks)
+            j = rng.below(nk)
+            fo = o + 16 + 16 * j
+            name, off, size = rng.choice([("fsblk", 0, 8), ("blk_crc", 8, 4), ("size", 12, 4), ("size", 12, 4)])
+            cur = int.from_bytes(data[fo + off:fo + off + size], "little")
+            if name == "size":
+                v = rng.choice([0, 1, bs - 1, bs + 1, 512 * bs, 512 * bs + 1, 0x80000000, 0xFFFFFFFF, 0xFFFFFFFF - bs + 2,
+                                0xFFFFFFFF - rng.below(bs), cur + bs, cur * 2])
+            elif name == "fsblk":
+                v = rng.choice([0, cur + 1, 0xFFFFFFFF, 1 << 32, (1 << 63) - 1, (1 << 64) - 1, (1 << 64) // max(1, _fbs), cur ^ (1 << rng.below(40))])
+            else:
+                v = rng.choice(INTERESTING)
+            v &= (1 << 8 * size) - 1
+            data[fo + off:fo + off + size] = v.to_bytes(size, "little")
+            if seal:
+                kb = bytes(data[o:o + 4]) + b"\0\0\0\0" + bytes(data[o + 8:o + bs])
+                struct.pack_into("<I", data, o + 4, crc32c(0xFFFFFFFF, kb))
+            what.append("key.%s=%#x%s" % (name, v, "~sealed" if seal else ""))
+        else:
+            name, off, size = rng.choice(UNDO_HDR)
+            cur = int.from_bytes(data[off:off + size], "little")
+            v = rng.choice(INTERESTING + [cur + 1, max(0, cur - 1), cur * 2, cur | (1 << 61), cur ^ (1 << rng.below(8 * size))])
+            v &= (1 << 8 * size) - 1
+            data[off:off + size] = v.to_bytes(size, "little")
+            if seal:
+                struct.pack_into("<I", data, 508, crc32c(0xFFFFFFFF, bytes(data[:508])))
+            what.append("uhdr.%s=%#x%s" % (name, v, "~sealed" if seal else ""))
+    with open(path, "wb") as f:
+        f.write(data)
+    return what
+
+
 class C06(Check):
     pid = "C06"
     level = "exploration"
@@ -80,13 +146,16 @@ class C06(Check):
     reference_models = ["ASan/UBSan(bounds) reports, terminating signals, step budget"]
 
     def budget(self, tier):
-        return {"runs": 700, "wall_s": 85} if tier == "quick" else {"runs": 40000, "wall_s": 1500}
+        return {"runs": 1500, "wall_s": 100} if tier == "quick" else {"runs": 40000, "wall_s": 1500}
 
     def generate(self, rng, tier):
         kind = rng.weighted([("faults", 12), ("crashed_writer", 3), ("journal+faults", 3), ("journal", 1), ("orphan", 1), ("clean", 1)])
         invs = rng.sample(RO + EXTRA + ["e2fsck-y", "e2fsck-p", "e2fsck-n", "debugfs", "debugfs"], rng.range(4, 8))
         spec = {"world_seed": rng.u64(), "state": kind, "faults": None, "nfaults": rng.weighted([(1, 4), (2, 3), (3, 2), (5, 1)]),
                 "invocations": invs, "dbg_seed": rng.u64(), "read_fault": None, "aux_seed": rng.u64(), "truncate": None}
+        # a share of the fault states aims at the superblock's geometry fields (with the checksum re-sealed most of the
+        # time): every size, count and divisor in the tools derives from them
+        spec["geometry"] = kind in ("faults", "journal+faults") and rng.chance(0.25)
         if rng.chance(0.25):
             spec["read_fault"] = [rng.choice(["eio_r", "short_r", "bad_r", "eof_r"]), rng.range(1, 60), rng.range(0, 4000)]
         if rng.chance(0.08):
@@ -96,7 +165,11 @@ class C06(Check):
     def execute(self, spec, wd):
         o = Outcome()
         rng = Rng(spec["world_seed"])
-        st = make_state(rng, wd, spec["state"], nfaults=spec["nfaults"], faults=spec["faults"])
+        if spec.get("geometry"):
+            st = make_state(rng, wd, spec["state"], nfaults=spec["nfaults"], faults=spec["faults"], fault_gen="struct",
+                            fault_classes={"sb_geometry": 4, "gd": 1}, reseal_p=0.7)
+        else:
+            st = make_state(rng, wd, spec["state"], nfaults=spec["nfaults"], faults=spec["faults"])
         if st is None:
             o.stats["world.rejected"] += 1
             o.trace = "rejected"
@@ -132,7 +205,12 @@ class C06(Check):
                 if not os.path.exists(undo):
                     o.stats["skip." + inv] += 1
                     continue
-                aux_what = corrupt_file(arng, undo, arng.range(0, 3), 4096)
+                if arng.chance(0.5):
+                    aux_what = undo_struct_faults(arng, undo, arng.range(1, 2))
+                    if arng.chance(0.3):
+                        aux_what += corrupt_file(arng, undo, 1, 4096)
+                else:
+                    aux_what = corrupt_file(arng, undo, arng.range(0, 3), 4096)
                 argv = [tool("e2undo")] + (["-f"] if inv == "e2undo-f" else []) + [undo, work]
             elif inv == "qcow2raw":
                 q = os.path.join(wd, "c06.qcow2")
@@ -191,12 +269,17 @@ class C06(Check):
                 o.stats["outside.output_limit"] += 1
             elif r.signal:
                 o.violate("%s|signal%d" % (inv, r.signal), "killed by signal %d: %s\n%s" % (r.signal, where, r.err.decode("latin1")[-600:]), **extra)
+            elif inv.startswith("e2fsck") and re.search(rb"^Signal \((\d+)\) SIG", r.out + b"\n" + r.err, re.M):
+                # e2fsck installs a handler that prints the fatal signal and a backtrace and then exits 8
+                m = re.search(rb"^Signal \((\d+)\) (SIG[A-Z]+)", r.out + b"\n" + r.err, re.M)
+                o.violate("e2fsck|caught_signal%d" % int(m.group(1)), "fatal signal %s caught by e2fsck's own handler: %s\n%s" %
+                          (m.group(2).decode(), where, (r.out + r.err).decode("latin1")[-900:]), **extra)
             elif inv.startswith("e2fsck") and r.status is not None and (r.status & ~0xBF):
                 o.violate("%s|status%d" % (inv, r.status), "undocumented exit status %d: %s" % (r.status, where), **extra)
             for f in os.listdir(wd):
                 if f.startswith("out."):
                     os.unlink(os.path.join(wd, f))
-            shutil.rmtree(wd + "/rdump", ignore_errors=True)
+            simcore.rmtree(wd + "/rdump")
         o.stats["state." + spec["state"]] += 1
         o.trace = hashlib.sha256("".join(traces).encode()).hexdigest()
         o.sample = {"state": spec["state"], "features": feats, "faults": [f["what"] for f in st["faults"]],
